@@ -56,7 +56,7 @@ type instModel struct {
 
 func TestPropReclaim(t *testing.T) {
 	sub := stats.NewSub("reclaim-histories", "rapid state machine on the real limiter (2 shards, local / API-backed store, 3 upstreams, 4 instance identities): ops heartbeat, report (allocate), acquire (count strategy), go silent, cleanup pass, comeback with the same identity; oracle after every pass: no condition and no in-flight count of a silent instance remains anywhere, running total == per-instance sum, everything of instances with a fresh heartbeat is unchanged; after the next survivor report the recorded sum excludes the dead instance and the freed in-flight capacity can be taken by a survivor; non-trivial = a pass reclaims >=1 instance that had state while >=1 other instance with state stays, or an instance comes back after being reclaimed; distinct by FNV-64 of the op trace")
-	stats.Check(t, stats.N(1200, 20000), func(t *rapid.T) {
+	stats.Check(t, stats.N(4000, 20000), func(t *rapid.T) {
 		kind := rapid.SampledFrom([]string{"local", "k8s"}).Draw(t, "store")
 		box := limbox.New(kind, 2, "srv")
 		box.LeadAll()
